@@ -6,6 +6,7 @@ mod c03;
 mod c04;
 mod crash;
 mod c05;
+mod c06;
 mod c07;
 mod c08;
 mod vals;
@@ -41,6 +42,7 @@ fn main() {
         "c03" => c03::main(args),
         "c04" => c04::main(args),
         "c05" => c05::main(args),
+        "c06" => c06::main(args),
         "c07" => c07::main(args),
         "c08" => c08::main(args),
         "c09" => c09::main(args),
